@@ -2,7 +2,7 @@
    Only the property theorems, closed by `exact`, with their assumptions and non-vacuity examples. *)
 From Coq Require Import List NArith ZArith Bool Ring Reals Lra.
 From QI Require Import Base.ListAux Base.Scalar Model.Outcome Model.Validate Model.Gates Model.StateOps Model.Pauli Spec.Embed
-  Proofs.PauliF Proofs.C04a Proofs.C08 Proofs.C09 Proofs.C09b Run.RInst Run.ZInst.
+  Proofs.PauliF Proofs.C04a Proofs.C08 Proofs.C09 Proofs.C09b Proofs.C09c Run.RInst Run.ZInst.
 Import ListNotations.
 Open Scope N_scope.
 
@@ -38,6 +38,17 @@ Theorem C09_operator_series_is_scalar_series :
   cadd O (cmul O (series_par O false c a N0) (psi k)) (cmul O (series_par O true c a N0) (apply_ops_f O ops psi k)).
 Proof. exact @series_is_cosh_sinh. Qed.
 Print Assumptions C09_operator_series_is_scalar_series.
+
+(* ... and over the real numbers the limit is taken: for the exponent -i x (x real, the case of time evolution) the
+   partial sums  sum_{j<=N} (1/j!) (-i x)^j P^j psi  converge, amplitude by amplitude (real and imaginary part), to
+   cos(x) psi - i sin(x) P psi, Coq's cos and sin being DEFINED as the sums of their power series. This is the value
+   apply_exp_neg_i_dt computes from cosh(-ix) = cos x, sinh(-ix) = -i sin x: the true operator exponential e^{-ixP} psi. *)
+Theorem C09_neg_i_exponential_series_converges :
+  forall (ops : list (N * pauli)), NoDup (map fst ops) -> forall (x : R) (psi : N -> C (T:=R)) (k : N),
+  Un_cv (fun N0 => fst (series_op rops invfact (nix x) ops N0 psi k)) (fst (expf rops (cos x, 0%R) (0%R, (- sin x)%R) ops psi k)) /\
+  Un_cv (fun N0 => snd (series_op rops invfact (nix x) ops N0 psi k)) (snd (expf rops (cos x, 0%R) (0%R, (- sin x)%R) ops psi k)).
+Proof. exact series_converges. Qed.
+Print Assumptions C09_neg_i_exponential_series_converges.
 
 (* exp(0 P) = I and exp(aP) exp(bP) = exp((a+b)P), given the addition formulas of the supplied values *)
 Theorem C09_exp_zero :
